@@ -25,7 +25,7 @@ USE_REWRITE = ("use crate::vpmap::HashMap;\nuse crate::graph::{AigEdge, AigModul
                "use crate::npn4::{self, AigPattern, PatEdge, Tt4, VAR_TT};\n")
 # in module rewrite_lib the name `npn4` is bound to the oracle stand-ins (npn_canonical / lookup_canonical answer with symbolic values that
 # satisfy unit npn's postconditions); compute_cut_tt is the stand-in defined in the harness section of that module
-USE_REWRITE_LIB = ("use crate::graph::{AigEdge, AigModule, AigNode};\nuse crate::npn4::{AigPattern, PatEdge, Tt4, VAR_TT};\n"
+USE_REWRITE_LIB = ("use crate::graph::{AigEdge, AigNode};\nuse crate::valaig::AigModule;\nuse crate::npn4::{AigPattern, PatEdge, Tt4, VAR_TT};\n"
                    "use crate::oracle as npn4;\n")
 
 TRUSTED = {
@@ -117,8 +117,8 @@ FN_OF = [("edge_", "AigEdge::{new,node,is_negated,negate,negate_if,raw}"), ("mk_
          ("try_library_rewrite", "try_library_rewrite"), ("canary_try_library", "try_library_rewrite"), ("merge_cuts", "merge_cuts"), ("canary_merge", "merge_cuts"),
          ("compute_cut_tt", "compute_cut_tt"), ("canary_compute_cut_tt", "compute_cut_tt"), ("cell_fn", "CellKind::arity")]
 BOUNDS = {
-    "compute_cut_tt_is_cone_function_2_ands": "root cone of 2 symbolic AND nodes over nodes {const, 4 inputs}, symbolic cut of <= 4 leaves; HashMap = association-list stand-in",
-    "compute_cut_tt_is_cone_function_3_ands": "root cone of 3 symbolic AND nodes over nodes {const, 4 inputs}, symbolic cut of <= 4 leaves; HashMap = association-list stand-in",
+    "compute_cut_tt_is_cone_function_balanced_and_shared": "3 AND nodes over {const, 4 inputs} in the fixed shapes 7=(5,6),5=(1,2),6=(3,4) and 6=(1,2); symbolic polarities, symbolic cut of <= 4 leaves covering the cone; HashMap = association-list stand-in",
+    "compute_cut_tt_is_cone_function_chain_and_reconvergent": "3 AND nodes in the fixed shapes chain 5=(1,2),6=(5,3),7=(6,4); reconvergent 7=(5,6),6=(5,3); constant fanin 5=(0,1); symbolic polarities, symbolic cut of <= 4 leaves covering the cone",
 }
 
 
@@ -162,7 +162,7 @@ def build(ctx, res):
     res.clauses.update(CLAUSES)
     res.samples.append({"obligation": "kani:aigmap:try_match_emits_cell_with_root_function",
                         "contract": "try_match(..) == Some(m) ==> cell_fn(m.kind, values of m.inputs) ^ m.output_is_negated == value(root), m.inputs.len() == m.kind.arity()"})
-    res.samples.append({"obligation": "kani:aigmap:try_library_rewrite_computes_cut_function_3_gates",
+    res.samples.append({"obligation": "kani:aigmap:try_library_rewrite_computes_cut_function",
                         "contract": "try_library_rewrite(..) == Some(e) ==> value(e) == tt(value(new_edge[leaf_0]), .., padded with leaf_0) for every assignment; older nodes of new_aig untouched"})
     return [KaniJob("aigmap", lib, hs, deps={}, items=items, trusted=TRUSTED, jobs=3, timeout=2400, per_harness_timeout=900)]
 
